@@ -247,3 +247,7 @@ def run(ctx):
     r7_4(ctx)
     from ..initflags import group_rule
     group_rule(ctx, "R7.5", "cost", "the cost lists of an owner and of its members no longer cover the same steps, so a step's total no longer equals the sum of its parts")
+    # the cost identities must survive save / load: the project's cost list is restored as its own list (C16 project table)
+    from .C16 import r16_1
+    from ..jsontab import JsonTables
+    r16_1(ctx, JsonTables(ctx))
